@@ -1,5 +1,6 @@
 (* C03 — eviction is least-recently-used first, minimal, and spares the new entry. *)
 Require Import LruV.A.SpecA.
+Require Import LruV.B.StepB LruV.B.RefineLemmas LruV.B.OpsProps LruV.B.CorollariesB LruV.A.SpecA.
 
 (* `minimal_prefix l evd rest target` (A/SpecA.v): l = evd ++ rest, rest fits the target, evd is the
    SHORTEST such prefix (dropping its last element would not fit), and nothing is evicted when
@@ -128,8 +129,19 @@ Example C03_example :
      /\ map (fun e => kid (ek e)) (e_evicted evs) = [1; 2] /\ map (fun e => kid (ek e)) (ents s') = [3; 9].
 Proof. cbv zeta. eexists _, _. split; [vm_compute; reflexivity|]. split; reflexivity. Qed.
 
+(* at pointer level: the eviction loop that reads its victims from seal.prev, on a coherent structure whose counter is the sum
+   of the recorded sizes, never faults, removes exactly the shortest run of least-recently-used entries that brings the total
+   to the target (oldest first), frees exactly their buckets and leaves every other node as it was *)
+Theorem C03_pointer_level : forall g c target, RIg g -> NoDup (kids (absG g)) -> c = sum_es (absG g) ->
+  exists g' evd, b_eject (length (glist g)) g c target = Some (g', sum_es (absG g'), evd) /\
+    minimal_prefix (absG g) evd (absG g') target /\ RIg g' /\ gseal g' = gseal g /\
+    (exists gone, glist g = glist g' ++ gone /\ forall x, In x gone -> gh g' x = None) /\
+    (forall b, In b (glist g') -> entry_at (gh g') b = entry_at (gh g) b).
+Proof. exact eject_pointer_level. Qed.
+
 Print Assumptions C03_insert.
 Print Assumptions C03_exact_fit.
 Print Assumptions C03_mutate.
 Print Assumptions C03_set_max.
 Print Assumptions C03_only_when.
+Print Assumptions C03_pointer_level.
